@@ -219,6 +219,52 @@ pub fn run_c16(ctx: &Ctx, rep: &mut Report) {
             },
         );
     }
+    // (a2) "arbitrary Unicode text": control characters, percent, combining mark, NBSP, C1 control, non-BMP
+    {
+        let syms2: [&str; 12] = ["\t", "\r", "\u{7f}", "\u{1}", "\0", "%", "\u{301}", "\u{a0}", "\u{85}", "\u{1F620}", "\"", "a"];
+        let maxlen = if ctx.thorough() { 4 } else { 3 };
+        let strings = mccore::strings_upto_count(12, maxlen);
+        let radices = [strings, 2, 2, 2];
+        let n = product(&radices);
+        ctx.family(
+            rep,
+            "a2-values-other-code-points",
+            &format!("every value of <= {} symbols over {{TAB CR DEL U+0001 NUL % U+0301 NBSP U+0085 U+1F620 \" a}} x {{attr, attr_quoted}} x {{only attribute, followed by a second link}} x newline option", maxlen),
+            n,
+            true,
+            |i, rep| {
+                let d = decode(i, &radices);
+                let s: String = mccore::string_at(d[0], 12, maxlen).iter().map(|x| syms2[*x as usize]).collect();
+                let v = if d[1] == 0 { Val::Attr(s) } else { Val::Quoted(s) };
+                let mut doc: Doc = vec![Link { target: "/x".into(), attrs: vec![("title".to_string(), v), ("if".to_string(), Val::Attr("s".into()))] }];
+                if d[2] == 1 {
+                    doc.push(Link { target: "/y".into(), attrs: vec![("rt".to_string(), Val::Quoted("t,u".into()))] });
+                }
+                c16_case("a2-values-other-code-points", i, n, &doc, d[3] == 1, ctx, rep);
+            },
+        );
+    }
+    // (a3) long values (longer than any internal buffer a writer might use)
+    {
+        let lens = [41usize, 127, 128, 129, 255, 256, 257, 1000];
+        let radices = [lens.len() as u64, 3, 2];
+        let n = product(&radices);
+        ctx.family(rep, "a3-long-values", "values of 41..1000 characters {plain, with a quote/backslash every 7th character, multi-byte} x {attr, attr_quoted}", n, true, |i, rep| {
+            let d = decode(i, &radices);
+            let len = lens[d[0] as usize];
+            let s: String = (0..len)
+                .map(|k| match (d[1], k % 7) {
+                    (1, 3) => '"',
+                    (1, 5) => '\\',
+                    (2, _) => ['é', '😁', 'a'][k % 3],
+                    _ => (b'a' + (k % 26) as u8) as char,
+                })
+                .collect();
+            let v = if d[2] == 0 { Val::Attr(s) } else { Val::Quoted(s) };
+            let doc: Doc = vec![Link { target: "/long".into(), attrs: vec![("title".to_string(), v)] }, Link { target: "/z".into(), attrs: vec![] }];
+            c16_case("a3-long-values", i, n, &doc, false, ctx, rep);
+        });
+    }
     // (b1) one-link documents: target x <= 2 (3) attributes over 26 choices
     {
         let maxattrs = if ctx.thorough() { 3 } else { 2 };
@@ -448,6 +494,31 @@ pub fn run_c17(ctx: &Ctx, rep: &mut Report) {
             },
         );
     }
+    // a wider alphabet: code points whose UTF-8 encoding ends in bytes that byte-wise scanners mistake for
+    // white space or structure (C3 A0, C3 85, C2 A0, C2 85, F0 9F 98 A0), tab, and the structural characters
+    {
+        let syms: [&str; 13] = ["<", ">", ";", ",", "\"", "\\", "=", " ", "a", "à", "\u{a0}", "\u{1F620}", "Å"];
+        let maxlen = if ctx.thorough() { 7 } else { 5 };
+        let n = mccore::strings_upto_count(13, maxlen);
+        ctx.family(
+            rep,
+            "all-strings-wide-alphabet",
+            &format!("every string of length 0..={} over {{< > ; , \" \\ = space a à NBSP U+1F620 Å}}", maxlen),
+            n,
+            true,
+            |i, rep| {
+                let s: String = mccore::string_at(i, 13, maxlen).iter().map(|x| syms[*x as usize]).collect();
+                match guard(|| c17_walk(&s)) {
+                    Err(pn) => rep.violation(viol("all-strings-wide-alphabet", i, format!("C17/panic@{}", pn.site()), pn.message, Json::obj().set("input", s.as_str()))),
+                    Ok(Err((sig, what))) => rep.violation(viol("all-strings-wide-alphabet", i, sig, what, Json::obj().set("input", s.as_str()))),
+                    Ok(Ok((links, attrs, quoted, err))) => {
+                        rep.count(if err { "ends-with-parse-error" } else { "parsed-to-the-end" });
+                        rep.bucket(&("wide", links.min(4), attrs.min(4), quoted.min(3), err));
+                    }
+                }
+            },
+        );
+    }
     // Unquote::new directly
     {
         let syms = ["\"", "\\", "a", "é", " ", ","];
@@ -613,6 +684,14 @@ fn c18_docs(thorough: bool) -> Vec<Doc> {
             })
             .collect(),
     );
+    // long values: longer than any scratch buffer a writer might use (escapes in the middle and at chunk edges)
+    for len in [127usize, 128, 129, 300] {
+        let long: String = (0..len).map(|k| if k % 50 == 49 { '"' } else if k % 64 == 63 { '\\' } else { (b'a' + (k % 26) as u8) as char }).collect();
+        docs.push(vec![
+            Link { target: "/a".into(), attrs: vec![("title".into(), Val::Quoted(long.clone())), ("ct".into(), Val::U16(40))] },
+            Link { target: "/b".into(), attrs: vec![("rt".into(), Val::Attr(long.clone()))] },
+        ]);
+    }
     docs.push(vec![]);
     docs
 }
